@@ -7,8 +7,8 @@ use simple_sds::bit_vector::rank_support::RankSupport;
 use simple_sds::bit_vector::select_support::SelectSupport;
 use simple_sds::bit_vector::{BitVector, Complement, Identity};
 use simple_sds::int_vector::IntVector;
-use simple_sds::ops::{Push, Rank, Select, SelectZero};
-use simple_sds::raw_vector::RawVector;
+use simple_sds::ops::{Pop, Push, Rank, Resize, Select, SelectZero};
+use simple_sds::raw_vector::{PopRaw, PushRaw, RawVector};
 use simple_sds::serialize::Serialize;
 use simple_sds::sparse_vector::{SparseBuilder, SparseVector};
 use simple_sds::wavelet_matrix::wm_core::WMCore;
@@ -68,6 +68,10 @@ pub enum Desc {
     OptOptStr(Option<Option<String>>),
     Raw(BitsDesc),
     Int { width: usize, values: Vec<u64> },
+    /// The same values as `Raw` / `Int`, but reached through a history: everything pushed, then more pushed
+    /// (bits, a word-straddling integer) and popped again, resized up and back down.
+    RawHist(BitsDesc),
+    IntHist { width: usize, values: Vec<u64> },
     OptInt(Option<(usize, Vec<u64>)>),
     /// Plain bitvector with a subset of supports: bit 0 rank, bit 1 select, bit 2 select_zero.
     Bv { bits: BitsDesc, supports: u8 },
@@ -197,6 +201,38 @@ pub fn build(d: &Desc) -> Box<dyn Ser> {
         Desc::OptOptStr(o) => Box::new(o.clone()),
         Desc::Raw(b) => Box::new(raw_from_model(&b.model())),
         Desc::Int { width, values } => Box::new(int_vector(*width, values)),
+        Desc::RawHist(b) => {
+            let m = b.model();
+            let mut raw = RawVector::new();
+            for bit in m.to_bools() {
+                raw.push_bit(bit);
+            }
+            let n = raw.len();
+            unsafe {
+                raw.push_int(!0u64, 64);
+                raw.push_int(0x2AAA, 13);
+                raw.pop_int(13);
+                raw.pop_int(64);
+            }
+            raw.push_bit(true);
+            raw.pop_bit();
+            raw.resize(n + 70, true);
+            raw.resize(n, false);
+            Box::new(raw)
+        }
+        Desc::IntHist { width, values } => {
+            let mut v = int_vector(*width, values);
+            let n = v.len();
+            for _ in 0..6 {
+                v.push(!0u64);
+            }
+            for _ in 0..6 {
+                v.pop();
+            }
+            v.resize(n + 3, !0u64);
+            v.resize(n, 0);
+            Box::new(v)
+        }
         Desc::OptInt(o) => Box::new(o.as_ref().map(|(w, v)| int_vector(*w, v))),
         Desc::Bv { bits, supports } => Box::new(bv_with_supports(bits, *supports)),
         Desc::OptBv(o) => Box::new(o.as_ref().map(|(b, s)| bv_with_supports(b, *s))),
@@ -303,6 +339,15 @@ pub fn catalogue(big: bool, seed_pattern: u64) -> Vec<Desc> {
     c.push(Desc::OptWm(Some(vec![3, 1, 4, 1, 5, 9, 2, 6])));
     c.push(Desc::OptInt(None));
     c.push(Desc::OptInt(Some((13, vec![1, 2, 8191]))));
+    // Values reached through push / pop / resize histories (not freshly built).
+    c.push(Desc::RawHist(BitsDesc::Word { len: 0, word: 0 }));
+    c.push(Desc::RawHist(BitsDesc::Word { len: 2, word: 1 }));
+    c.push(Desc::RawHist(BitsDesc::Word { len: 63, word: !0 >> 1 }));
+    c.push(Desc::RawHist(BitsDesc::Letters(vec![Letter::Ones(1), Letter::Zeros(63), Letter::Ones(2)])));
+    c.push(Desc::IntHist { width: 13, values: vec![1, 2, 8191, 0] });
+    c.push(Desc::IntHist { width: 13, values: vec![] });
+    c.push(Desc::IntHist { width: 64, values: vec![!0, 5] });
+    c.push(Desc::IntHist { width: 1, values: vec![1; 65] });
     c.push(Desc::SparseMulti { universe: 5, values: vec![0, 0, 3, 3, 3, 4] });
     c.push(Desc::SparseMulti { universe: 3, values: vec![1, 1, 1, 1, 2] });
     c.push(Desc::SparseMulti { universe: 300, values: vec![63, 64, 64, 127, 128, 128, 299] });
@@ -328,7 +373,7 @@ pub fn catalogue(big: bool, seed_pattern: u64) -> Vec<Desc> {
 
 /// Values that have a memory-mapped view type.
 pub fn is_mappable(d: &Desc) -> bool {
-    matches!(d, Desc::VecU64(_) | Desc::VecUsize(_) | Desc::VecPair(_) | Desc::Bytes(_) | Desc::Str(_) | Desc::OptVecU64(_) | Desc::OptBytes(_) | Desc::OptStr(_) | Desc::Raw(_) | Desc::Int { .. } | Desc::OptInt(_))
+    matches!(d, Desc::VecU64(_) | Desc::VecUsize(_) | Desc::VecPair(_) | Desc::Bytes(_) | Desc::Str(_) | Desc::OptVecU64(_) | Desc::OptBytes(_) | Desc::OptStr(_) | Desc::Raw(_) | Desc::Int { .. } | Desc::RawHist(_) | Desc::IntHist { .. } | Desc::OptInt(_))
 }
 
 /// Keeps the compiler honest about the trait imports used above.
@@ -502,14 +547,14 @@ pub fn mapped_view(d: &Desc, map: &MemoryMap, offset: usize) -> Option<io::Resul
             }
             info(&s, mm, None)
         }),
-        Desc::Raw(b) => RawVectorMapper::new(map, offset).map(|s| {
+        Desc::Raw(b) | Desc::RawHist(b) => RawVectorMapper::new(map, offset).map(|s| {
             let words: &MappedSlice<u64> = s.as_ref();
             let out = outside(map, words.as_ref());
             if out.is_some() { return info(&s, None, out); }
             let mm = raw_view_mismatch(&s, &b.model());
             info(&s, mm, None)
         }),
-        Desc::Int { width, values } => IntVectorMapper::new(map, offset).map(|s| {
+        Desc::Int { width, values } | Desc::IntHist { width, values } => IntVectorMapper::new(map, offset).map(|s| {
             let raw: &RawVectorMapper = s.as_ref();
             let words: &MappedSlice<u64> = raw.as_ref();
             let out = outside(map, words.as_ref());
